@@ -13,7 +13,7 @@ SPEC = dict(
              '(c06_store_load, c06_decode_encode); any list of values stored into an empty builder loads back equal with nothing left '
              '(c06_sequence, induction); whenever load_X returns, preload_X returns the same and leaves the slice unchanged (c06_preload_eq_load, '
              'every kind incl. preload_address); var-int length prefixes are minimal for both signs (c06_varint_minimal) and the byte-length computations of store_var_uint/store_var_int are '
-             're-translated from builder.py on every run and proved equal to the TL-B minimal lengths for ALL integers (c06_src_varint_len, c06_src_varuint_len); snake chains of ANY length into any within-capacity builder (c06_snake_depth_exact, with the depth-checking cell constructor of C01): the chain for n bytes after p prefilled bits has depth exactly 0 if n <= (1023-p)//8 else ceil((n - (1023-p)//8)/127); store_snake_bytes returns iff that is <= 1024, end_cell on the result succeeds iff it is <= 1023 (the library raises the depth error beyond), and whenever the store returns load_snake_bytes gives the bytes back. '
+             're-translated from builder.py on every run and proved equal to the TL-B minimal lengths for ALL integers (c06_src_varint_len, c06_src_varuint_len); snake chains of ANY length into any within-capacity builder (c06_snake_depth_exact, with the depth-checking cell constructor of C01): the chain for n bytes after p prefilled bits has depth exactly 0 if n <= (1023-p)//8 else ceil((n - (1023-p)//8)/127); store_snake_bytes returns iff that is <= 1024, end_cell on the result succeeds iff it is <= 1023 (the library raises the depth error beyond), whenever the store returns load_snake_bytes gives the bytes back, and the cells are the TL-B SnakeData chain of the 127-byte chunks (c06_snake_is_snakedata). '
              'The model is tied to the working tree by differential testing: seeded scripts run on the library and on the compiled model, and '
              'each script is also checked on the library alone against an independent Python TL-B encoder, peek/load round trip and leftovers.',
         level_note='Proved for all inputs: the statements above, about Model/Builder.lean. Only sampled: that builder.py/slice.py/tvm_bitarray.py/'
